@@ -34,11 +34,16 @@ CONSTANTS MaxTicks,     \* bound on the number of timer firings (model checking)
           ROSChoices,   \* values of RefreshOnShutdown chosen in Init
           RefOutcomes,  \* {"nil", "err"}
           AllowTBD,     \* FALSE: the sequential driver (no Fire once done is closed)
+          SctxInit,     \* initial states of the Start context: subset of {"live", "cancelled"}
+          StopOnCancel, \* FALSE = the code as it is; TRUE = a loop that also returns when the Start context is
+                        \* done (`case <-ctx.Done(): return`), kept to show what the Start-context scenarios are for
           CloseLate     \* FALSE = the code as it is (`close(w.done)` first); TRUE = a Shutdown that closes
                         \* done only when it returns (`defer close(w.done)`), kept to show on the design
                         \* what the window check is for
 
 VARIABLES ros,       \* Go: w.refrOnShutdown
+          sctx,      \* the context passed to Start: "live" or "cancelled" (environment: a start-up timeout
+                     \* context is cancelled once Start has returned; it may even be cancelled already)
           lp,        \* loop goroutine: "ask", "sleep", "waiting", "refresh", "handle", "stopped"
           sp,        \* Shutdown caller: "none", "final", "infinal" (final refresh in flight), "returning", "returned"
           done,      \* Go: w.done is closed
@@ -59,21 +64,28 @@ VARIABLES ros,       \* Go: w.refrOnShutdown
           trig       \* what started the refresh in progress: "tick", "tbd", or "late" = a tick taken after
                      \* Shutdown was called with done still open ("none" when no loop refresh is starting)
 
-wvars == <<ros, lp, sp, done, nnow, nd, askedWith, waitD, timer, timerD, fires, ticks,
+wvars == <<ros, sctx, lp, sp, done, nnow, nd, askedWith, waitD, timer, timerD, fires, ticks,
            refs, lerr, handled, result, ferr, tbd, trig>>
 
+(* The loop hands the START context to the constructor for every refresh     *)
+(* (`w.contextCons.New(ctx)`); Start's context plays no other role.  When the *)
+(* application cancels it (a start-up timeout, say) the constructor receives  *)
+(* a cancelled parent and the refresher a context that is already done        *)
+(* (live = FALSE) - that is passed through; the worker itself must go on:     *)
+(* one Refresh per tick until Shutdown, whatever happens to that context.     *)
+(*                                                                            *)
 (* who: "loop" (constructor given Start's context) or "final" (Shutdown's);   *)
 (* cons: the refresher received the context the constructor returned for this *)
 (* very refresh; live: not cancelled yet when Refresh was called; out: the    *)
 (* refresher's outcome; afterDone: done was already closed when it started;   *)
 (* afterShutdown: Shutdown had already been called; trig: what led to it      *)
 (* ("none" for the final refresh).                                            *)
-Ref(who, out) == [who |-> who, cons |-> TRUE, live |-> TRUE, out |-> out, afterDone |-> done,
+Ref(who, out) == [who |-> who, cons |-> TRUE, live |-> (who = "final" \/ sctx = "live"), out |-> out, afterDone |-> done,
                   afterShutdown |-> (sp # "none"),
                   trig |-> IF who = "loop" THEN trig ELSE "none"]
 
 WNewState(r) ==
-    /\ ros = r /\ lp = "ask" /\ sp = "none" /\ done = FALSE
+    /\ ros = r /\ sctx \in SctxInit /\ lp = "ask" /\ sp = "none" /\ done = FALSE
     /\ nnow = 0 /\ nd = 0 /\ askedWith = 0 /\ waitD = 0
     /\ timer = "none" /\ timerD = 0 /\ fires = 0 /\ ticks = 0
     /\ refs = <<>> /\ lerr = 0 /\ handled = <<>> /\ result = -1 /\ ferr = 0 /\ tbd = 0 /\ trig = "none"
@@ -88,18 +100,18 @@ AskSchedule ==
     /\ nnow' = nnow + 1 /\ askedWith' = nnow + 1
     /\ nd' = nd + 1 /\ waitD' = nd + 1
     /\ lp' = "sleep"
-    /\ UNCHANGED <<ros, sp, done, timer, timerD, fires, ticks, refs, lerr, handled, result, ferr, tbd, trig>>
+    /\ UNCHANGED <<ros, sctx, sp, done, timer, timerD, fires, ticks, refs, lerr, handled, result, ferr, tbd, trig>>
 
 (* `clock.After(waitDur)`, evaluated on entering the select. *)
 Sleep ==
     /\ lp = "sleep"
     /\ timer' = "pending" /\ timerD' = waitD
     /\ lp' = "waiting"
-    /\ UNCHANGED <<ros, sp, done, nnow, nd, askedWith, waitD, fires, ticks, refs, lerr, handled, result, ferr, tbd, trig>>
+    /\ UNCHANGED <<ros, sctx, sp, done, nnow, nd, askedWith, waitD, fires, ticks, refs, lerr, handled, result, ferr, tbd, trig>>
 
 TickEffect ==
     /\ lp' = "refresh" /\ timer' = "none" /\ ticks' = ticks + 1
-    /\ UNCHANGED <<ros, sp, done, nnow, nd, askedWith, waitD, timerD, refs, lerr, handled, result, ferr>>
+    /\ UNCHANGED <<ros, sctx, sp, done, nnow, nd, askedWith, waitD, timerD, refs, lerr, handled, result, ferr>>
 
 (* The select takes the timer branch. *)
 TickKind == IF sp = "none" THEN "tick" ELSE "late"
@@ -107,11 +119,18 @@ Tick == lp = "waiting" /\ timer = "fired" /\ ~done /\ TickEffect /\ trig' = Tick
 TickBeatsDone == /\ AllowTBD
                  /\ lp = "waiting" /\ timer = "fired" /\ done /\ TickEffect
                  /\ tbd' = tbd + 1 /\ trig' = "tbd" /\ UNCHANGED fires
+(* Only with StopOnCancel: the select has a branch for the Start context. *)
+SeeStartCtxDone ==
+    /\ StopOnCancel
+    /\ lp = "waiting" /\ sctx = "cancelled"
+    /\ lp' = "stopped"
+    /\ UNCHANGED <<ros, sctx, sp, done, nnow, nd, askedWith, waitD, timer, timerD, fires, ticks, refs, lerr, handled, result, ferr, tbd, trig>>
+
 (* The select takes the done branch. *)
 SeeDone ==
     /\ lp = "waiting" /\ done
     /\ lp' = "stopped"
-    /\ UNCHANGED <<ros, sp, done, nnow, nd, askedWith, waitD, timer, timerD, fires, ticks, refs, lerr, handled, result, ferr, tbd, trig>>
+    /\ UNCHANGED <<ros, sctx, sp, done, nnow, nd, askedWith, waitD, timer, timerD, fires, ticks, refs, lerr, handled, result, ferr, tbd, trig>>
 
 (* `err := w.refresh(ctx)` in the loop. *)
 Refresh(out) ==
@@ -120,7 +139,7 @@ Refresh(out) ==
     /\ IF out = "err" THEN lerr' = Len(refs) + 1 /\ lp' = "handle"
                       ELSE lerr' = 0 /\ lp' = "ask"
     /\ trig' = "none"
-    /\ UNCHANGED <<ros, sp, done, nnow, nd, askedWith, waitD, timer, timerD, fires, ticks, handled, result, ferr, tbd>>
+    /\ UNCHANGED <<ros, sctx, sp, done, nnow, nd, askedWith, waitD, timer, timerD, fires, ticks, handled, result, ferr, tbd>>
 
 (* `w.errHdlr.Handle(ctx, err)` *)
 HandleError ==
@@ -128,7 +147,7 @@ HandleError ==
     /\ handled' = Append(handled, lerr)
     /\ lerr' = 0
     /\ lp' = "ask"
-    /\ UNCHANGED <<ros, sp, done, nnow, nd, askedWith, waitD, timer, timerD, fires, ticks, refs, result, ferr, tbd, trig>>
+    /\ UNCHANGED <<ros, sctx, sp, done, nnow, nd, askedWith, waitD, timer, timerD, fires, ticks, refs, result, ferr, tbd, trig>>
 
 ----------------------------------------------------------------------------
 (* The environment. *)
@@ -137,7 +156,13 @@ Fire ==
     /\ timer = "pending" /\ fires < MaxTicks
     /\ (AllowTBD \/ (lp = "waiting" /\ ~done))
     /\ timer' = "fired" /\ fires' = fires + 1
-    /\ UNCHANGED <<ros, lp, sp, done, nnow, nd, askedWith, waitD, timerD, ticks, refs, lerr, handled, result, ferr, tbd, trig>>
+    /\ UNCHANGED <<ros, sctx, lp, sp, done, nnow, nd, askedWith, waitD, timerD, ticks, refs, lerr, handled, result, ferr, tbd, trig>>
+
+(* The application cancels the context it passed to Start. *)
+CancelStart ==
+    /\ sctx = "live"
+    /\ sctx' = "cancelled"
+    /\ UNCHANGED <<ros, lp, sp, done, nnow, nd, askedWith, waitD, timer, timerD, fires, ticks, refs, lerr, handled, result, ferr, tbd, trig>>
 
 (* What a conformance driver does: hand the tick to a worker that is parked   *)
 (* in the select (Fire and Tick in one step).  Impossible once done is        *)
@@ -153,7 +178,7 @@ Shutdown ==
     /\ sp = "none"
     /\ done' = (IF CloseLate THEN done ELSE TRUE)
     /\ sp' = IF ros THEN "final" ELSE "returning"
-    /\ UNCHANGED <<ros, lp, nnow, nd, askedWith, waitD, timer, timerD, fires, ticks, refs, lerr, handled, result, ferr, tbd, trig>>
+    /\ UNCHANGED <<ros, sctx, lp, nnow, nd, askedWith, waitD, timer, timerD, fires, ticks, refs, lerr, handled, result, ferr, tbd, trig>>
 
 (* `err = w.refresh(ctx)` in Shutdown: the refresher is entered.  Until        *)
 (* ShutdownReturn the final refresh is IN FLIGHT (sp = "infinal"): that is    *)
@@ -164,7 +189,7 @@ FinalRefresh(out) ==
     /\ refs' = Append(refs, Ref("final", out))
     /\ ferr' = IF out = "err" THEN Len(refs) + 1 ELSE 0
     /\ sp' = "infinal"
-    /\ UNCHANGED <<ros, lp, done, nnow, nd, askedWith, waitD, timer, timerD, fires, ticks, lerr, handled, result, tbd, trig>>
+    /\ UNCHANGED <<ros, sctx, lp, done, nnow, nd, askedWith, waitD, timer, timerD, fires, ticks, lerr, handled, result, tbd, trig>>
 
 (* `return fmt.Errorf("refresh on shutdown: %w", err)` / `return nil` *)
 ShutdownReturn ==
@@ -172,17 +197,17 @@ ShutdownReturn ==
     /\ result' = ferr
     /\ sp' = "returned"
     /\ done' = TRUE
-    /\ UNCHANGED <<ros, lp, nnow, nd, askedWith, waitD, timer, timerD, fires, ticks, refs, lerr, handled, ferr, tbd, trig>>
+    /\ UNCHANGED <<ros, sctx, lp, nnow, nd, askedWith, waitD, timer, timerD, fires, ticks, refs, lerr, handled, ferr, tbd, trig>>
 
 (* The environment offers a tick while the final refresh is in flight (the    *)
 (* driver's non-blocking hand-over).  It can only be taken by a worker that   *)
 (* is parked with done still open - never, when done is closed first.         *)
 WindowTick == sp = "infinal" /\ DeliverTick
 
-LoopStep == AskSchedule \/ Sleep \/ Tick \/ TickBeatsDone \/ SeeDone
+LoopStep == AskSchedule \/ Sleep \/ Tick \/ TickBeatsDone \/ SeeDone \/ SeeStartCtxDone
             \/ (\E o \in RefOutcomes : Refresh(o)) \/ HandleError
 CallerStep == Shutdown \/ (\E o \in RefOutcomes : FinalRefresh(o)) \/ ShutdownReturn
-WNext == LoopStep \/ CallerStep \/ Fire \/ WindowTick
+WNext == LoopStep \/ CallerStep \/ Fire \/ WindowTick \/ CancelStart
 
 WSpec == WInit /\ [][WNext]_wvars /\ WF_wvars(LoopStep) /\ SF_wvars(SeeDone)
 
@@ -214,7 +239,12 @@ OneRefreshPerTick ==
 
 (* "with a context from its constructor" (live when used; cancelled by the    *)
 (* deferred cancel, see the harness).                                         *)
-CtxFromConstructor == \A k \in 1..Len(refs) : refs[k].cons /\ refs[k].live
+CtxFromConstructor == \A k \in 1..Len(refs) : refs[k].cons /\ (refs[k].who = "final" => refs[k].live)
+
+(* "calls Refresh exactly once per elapsed schedule interval ... after        *)
+(* Shutdown refreshes no more": nothing but Shutdown stops the loop - in      *)
+(* particular not the end of the Start context.                               *)
+StopsOnlyOnShutdown == lp = "stopped" => done
 
 (* "hands every Refresh error to the ErrorHandler exactly once" - the final   *)
 (* refresh's error goes to Shutdown's caller instead.                         *)
